@@ -30,7 +30,13 @@ func DefaultGenesisState() GenesisState {
 // error for any failed validation criteria.
 func ValidateGenesis(data GenesisState) error {
 	for _, account := range data.Accounts {
-		if account.GetPubKey().PubKey() == nil {
+		// module accounts and accounts that have only received coins carry no public key;
+		// every exported state contains such accounts
+		pk := account.GetPubKey()
+		if pk == nil {
+			continue
+		}
+		if pk.PubKey() == nil {
 			return fmt.Errorf("PubKey should never be nil")
 		}
 	}
